@@ -154,8 +154,8 @@ PROPS = {
         inv=["C16_IdInjective", "C16_RowsReferToIds"],
         step=["C16_Stable", "C16_FirstTime", "C16_Responses", "C16_ManagerOnly", "C16_Footprint", "C16_Effect"],
         tinv=[],
-        gen=[("data_q", 24, 25), ("data_buckets_q", 24, 25), ("data_equal_q", 16, 25), ("data_inj_q", 16, 25), ("data_res_g", 30, 25)],
-        gen_t=[("data_q", 200, 30), ("data_buckets_q", 200, 30), ("data_equal_q", 100, 30), ("data_inj_q", 100, 30), ("data_res_g", 300, 30)],
+        gen=[("data_q", 24, 25), ("data_buckets_q", 24, 25), ("data_equal_q", 16, 25), ("data_inj_q", 16, 25), ("data_res_g", 30, 25), ("data_deep_g", 16, 30)],
+        gen_t=[("data_q", 200, 30), ("data_buckets_q", 200, 30), ("data_equal_q", 100, 30), ("data_inj_q", 100, 30), ("data_res_g", 300, 30), ("data_deep_g", 150, 35)],
     ),
     "C17": dict(
         family="eco", mc=[], level="exploration",
